@@ -173,6 +173,19 @@ func runC05(r *ev.Run) {
 			r.ViolationAt("case", ci, "hybrid.setup", err.Error(), nil)
 			return
 		}
+		// what DefaultFusionConfig() hands out belongs to the caller: changing it (as one does to build a custom weighted
+		// sum) must not reach the library's defaults, which the via=1 / via=2 queries below rely on
+		if dc := comet.DefaultFusionConfig(); dc != nil {
+			orig := *dc
+			dc.VectorWeight, dc.TextWeight, dc.K = -1, 3, 5
+			again := comet.DefaultFusionConfig()
+			changed := again == nil || *again != orig
+			seen := fmt.Sprintf("%+v", again)
+			*dc = orig
+			if changed {
+				r.ViolationAt("case", ci, "hybrid.default-fusion-config-shared", fmt.Sprintf("after a caller changed the struct returned by DefaultFusionConfig(), the next DefaultFusionConfig() returns %s instead of %+v", seen, orig), nil)
+			}
+		}
 		schema := genSchema(rng)
 		h := newHybridModel(hasVec, hasTxt, hasMeta, metric, dim, schema)
 		ids := newIDGen(rng)
